@@ -102,8 +102,8 @@ def block_terms(sp: Space, b: Block):
     for key, d in b.blocks.items():
         lst = []
         for t in d.terms:
-            c = net._canon_term(sp, t)
-            lst.append((t.coef, c))
+            cf, c = net.canon_term_full(sp, t)
+            lst.append((cf, c))
         if lst:
             out[key] = sorted(lst, key=lambda x: x[1])
     parts = [[repr(sp.facts.norm(x)) for x in p] for p in b.parts]
@@ -117,6 +117,16 @@ def compare(sp: Space, actual, expected, up_to_coef=False):
     pe, te = block_terms(sp, e)
     if pa != pe:
         return False, f"axis partitions differ: computed {pa}, specified {pe}", {}
+    def nonzero(tb):
+        out = {}
+        for key, lst in tb.items():
+            acc = {}
+            for c, s_ in lst:
+                acc[s_] = c if s_ not in acc else net._coef_add(acc[s_], c)
+            if any(c.c != 0 for c in acc.values()):
+                out[key] = lst
+        return out
+    ta, te = nonzero(ta), nonzero(te)
     if set(ta) != set(te):
         return False, f"occupied blocks differ: computed {sorted(ta)}, specified {sorted(te)} (partitions {pa})", {}
     coefs = {}
@@ -127,7 +137,7 @@ def compare(sp: Space, actual, expected, up_to_coef=False):
             acc = {}
             for c, s in lst:
                 acc[s] = c if s not in acc else net._coef_add(acc[s], c)
-            return acc
+            return {s: c for s, c in acc.items() if c.c != 0}
         ma, me = merged(la), merged(le)
         if set(ma) != set(me):
             only_a = sorted(set(ma) - set(me))
@@ -191,3 +201,53 @@ def iter_positions(value, default_facts=None):
             off = off + s.length
         return
     raise Unmodelled(f"cores of type {type(cores).__name__}")
+
+
+# --------------------------------------------------------------------------- closed value of a result train (concrete order)
+
+def chain_value(sit, value) -> Block:
+    """Contract the cores of a result TT with a concrete number of cores into its dense value: mode axes open in core order
+    (for operators: row and column axis of each core, in core order), bonds contracted.  Block-partitioned cores are
+    contracted block by block."""
+    sp = sit.sp
+    cores = value.cores if isinstance(value, VTT) else value
+    if not isinstance(cores, VList):
+        raise Unmodelled("closed value of a train with a symbolic number of cores")
+    items = [as_block(c) for c in cores.items]
+    if not items:
+        raise Unmodelled("empty train")
+    cur = None
+    for b in items:
+        nm = b.ndim() - 2
+        if cur is None:
+            # drop the (unit) left bond
+            if len(b.parts[0]) != 1 or not sp.facts.eq(b.parts[0][0], ONE):
+                raise TypeViolation(f"the first core has left rank {b.parts[0]} instead of 1")
+            blocks = {}
+            for key, d in b.blocks.items():
+                blocks[key[1:]] = net.drop_axis(sp, d, 0)
+            cur = Block(sp, [list(p) for p in b.parts[1:]], blocks)
+            continue
+        # contract last axis of cur with first axis of b
+        pa, pb = cur.parts[-1], b.parts[0]
+        if len(pa) != len(pb) or any(not sp.facts.eq(x, y) for x, y in zip(pa, pb)):
+            raise TypeViolation(f"neighbouring cores disagree on the shared bond: {[repr(sp.facts.norm(x)) for x in pa]} vs "
+                                f"{[repr(sp.facts.norm(x)) for x in pb]}")
+        blocks = {}
+        for ka, da in cur.blocks.items():
+            for kb, db in b.blocks.items():
+                if ka[-1] != kb[0]:
+                    continue
+                na, nb = da.ndim(), db.ndim()
+                la = "".join(chr(ord("a") + i) for i in range(na))
+                lb = la[-1] + "".join(chr(ord("A") + i) for i in range(nb - 1))
+                r = net.einsum(sp, f"{la},{lb}->{la[:-1]}{lb[1:]}", [da, db])
+                key = ka[:-1] + kb[1:]
+                blocks[key] = blocks[key].add(r) if key in blocks else r
+        cur = Block(sp, [list(p) for p in cur.parts[:-1]] + [list(p) for p in b.parts[1:]], blocks)
+    if len(cur.parts[-1]) != 1 or not sp.facts.eq(cur.parts[-1][0], ONE):
+        raise TypeViolation(f"the last core has right rank {cur.parts[-1]} instead of 1")
+    blocks = {}
+    for key, d in cur.blocks.items():
+        blocks[key[:-1]] = net.drop_axis(sp, d, d.ndim() - 1)
+    return Block(sp, cur.parts[:-1], blocks)
